@@ -194,7 +194,8 @@ pub fn big_scenario() -> impl Strategy<Value = Scenario> {
 	scenario(30, 400).prop_map(|mut sc| {
 		let mut pre = Vec::new();
 		for chunk in 0..18u16 {
-			pre.push(Op::Commit((0..500u16).map(|i| Item { col: 0, ch: Change::Set(20100 + chunk * 500 + i, VSpec { len: 6, fill: 2, seed: i }) }).collect()));
+			// 150 pages of 60 entries each
+			pre.push(Op::Commit((0..500u16).map(|i| Item { col: 0, ch: Change::Set(30000 + chunk * 500 + i, VSpec { len: 6, fill: 2, seed: i }) }).collect()));
 			pre.push(Op::P);
 		}
 		pre.push(Op::Drain);
@@ -209,11 +210,12 @@ fn run(ctx: &Ctx) {
 	if !ctx.run_prop_shrink("growth", n, 300, scenario(40, 400), |sc, dir| run_scenario(sc, dir, false)) {
 		return
 	}
+	// more than 8192 index entries: a growth needs several reindex batches (quick: ten cases per shard)
+	let n = scaled(ctx, 140, 600);
+	if !ctx.run_prop_shrink("multi-batch", n, 40, big_scenario(), |sc, dir| run_scenario(sc, dir, true)) {
+		return
+	}
 	if ctx.tier == "thorough" {
-		let n = scaled(ctx, 0, 300);
-		if !ctx.run_prop_shrink("multi-batch", n, 40, big_scenario(), |sc, dir| run_scenario(sc, dir, true)) {
-			return
-		}
 		let opts = super::c02::CrashOpts { cap: 150, rec_depth: 1, synced_bound: false, tail: true, layout: true, tolerate_known: true };
 		let n = scaled(ctx, 0, 600);
 		ctx.run_prop_shrink(
